@@ -51,6 +51,12 @@ var c10Roots = []c10Root{
 	{"r3k3/8/8/8/8/8/8/R3K3 w - - 0 1", "a1b1 b1b8 b8a8 a8b8 b8b1 b1a1 a8c8 c8c1 c1a1 a1c1 c1c8 c8a8", [2]int{11, 15}},
 	{"k7/8/8/8/8/8/8/K7 w - - 0 1", "a1b1 b1a2 a2a1 a1a2 a2b1 b1a1 a8b8 b8a7 a7a8 a8a7 a7b8 b8a8", [2]int{12, 16}},
 	{"4k2r/8/8/8/8/8/8/R3K3 w - - 0 1", "a1a3 a3a2 a2a1 a1a2 a2a3 a3a1 h8h6 h6h7 h7h8 h8h7 h7h6 h6h8", [2]int{12, 16}},
+	// rook-pawn double pushes with an enemy pawn on the OTHER edge of the board, one rank off (the square a shifted
+	// bitboard reaches when the file mask is forgotten): no capture exists, the pushed position recurs
+	{"4k3/p7/8/8/7P/8/8/4K3 b - - 0 1", "a7a5 a7a6 e1d1 d1e1 e8d8 d8e8", [2]int{12, 18}},
+	{"4k3/8/8/p7/8/8/7P/4K3 w - - 0 1", "h2h4 h2h3 e1d1 d1e1 e8d8 d8e8", [2]int{12, 18}},
+	{"4k3/7p/P7/8/8/8/8/4K3 b - - 0 1", "h7h5 h7h6 e1d1 d1e1 e8d8 d8e8", [2]int{12, 18}},
+	{"4k3/8/8/8/8/7p/P7/4K3 w - - 0 1", "a2a4 a2a3 e1d1 d1e1 e8d8 d8e8", [2]int{12, 18}},
 	{"6k1/8/8/8/2pP4/8/8/R3K3 b Q d3 0 1", "g8h8 h8g8 a1b1 b1a1 e1e2 e2e1 c4d3", [2]int{14, 21}},
 }
 
